@@ -3,6 +3,7 @@ package main
 import (
 	"fmt"
 	"go/ast"
+	"path/filepath"
 	"reflect"
 	"sort"
 	"strconv"
@@ -12,6 +13,7 @@ import (
 	"github.com/pentops/j5/gen/j5/schema/v1/schema_j5pb"
 	"google.golang.org/protobuf/reflect/protoreflect"
 	"google.golang.org/protobuf/reflect/protoregistry"
+	"verifharness/gen"
 )
 
 // keep the generated packages linked in (their descriptors are read below)
@@ -131,6 +133,156 @@ func genExtFields(repo string) (string, error) {
 	}
 	sb.WriteString(strings.Join(rows, ";\n"))
 	sb.WriteString("\n].\n")
+	// the alternatives of j5.schema.v1.Field (the documented field types) and, per alternative, which of
+	// rules / list_rules / ext / format its message declares: "every rule kind on every field type"
+	fld := (&schema_j5pb.Field{}).ProtoReflect().Descriptor()
+	sb.WriteString("(* j5.schema.v1.Field.type alternatives: (name, message, has rules, has list_rules, has ext, has format) *)\n")
+	sb.WriteString("Definition field_alternatives : list (string * string * bool * bool * bool * bool) := [\n")
+	rows = nil
+	ffs := fld.Fields()
+	for i := 0; i < ffs.Len(); i++ {
+		fd := ffs.Get(i)
+		if fd.Message() == nil {
+			continue
+		}
+		has := func(n string) bool { return fd.Message().Fields().ByName(protoreflect.Name(n)) != nil }
+		rows = append(rows, fmt.Sprintf("  (%s, %s, %s, %s, %s, %s)", coqStr(string(fd.Name())), coqStr(string(fd.Message().FullName())),
+			coqBool(has("rules")), coqBool(has("list_rules")), coqBool(has("ext")), coqBool(has("format"))))
+	}
+	sb.WriteString(strings.Join(rows, ";\n"))
+	sb.WriteString("\n].\n")
+	// the case labels of the type switches on the field schema in buildField and buildProperty
+	arms, err := typeSwitchArms(repo)
+	if err != nil {
+		return "", err
+	}
+	sb.WriteString("(* case labels of the type switches over the field schema: (function, label) *)\n")
+	sb.WriteString("Definition field_switch_arms : list (string * string) := [\n")
+	rows = nil
+	for _, a := range arms {
+		rows = append(rows, fmt.Sprintf("  (%s, %s)", coqStr(a[0]), coqStr(a[1])))
+	}
+	sb.WriteString(strings.Join(rows, ";\n"))
+	sb.WriteString("\n].\n")
+	// how conversion errors get their position: conversionVisitor.addError guards errpos.AddPosition only by
+	// `loc != nil`, and sourcewalk's SourceNode.GetPos returns the address of a composite literal (never nil)
+	ap, err := addErrorShape(repo)
+	if err != nil {
+		return "", err
+	}
+	sb.WriteString("(* addError: calls errpos.AddPosition; its only guard is `loc != nil`; GetPos returns &errpos.Position{...} in its only return *)\n")
+	fmt.Fprintf(&sb, "Definition adderror_adds_position : bool := %s.\n", coqBool(ap[0]))
+	fmt.Fprintf(&sb, "Definition adderror_guard_is_nil_check : bool := %s.\n", coqBool(ap[1]))
+	fmt.Fprintf(&sb, "Definition getpos_returns_literal_address : bool := %s.\n", coqBool(ap[2]))
 	_ = strconv.Itoa
 	return sb.String(), nil
+}
+
+// addErrorShape inspects conversionVisitor.addError (j5convert) and SourceNode.GetPos (sourcewalk) by syntax.
+func addErrorShape(repo string) ([3]bool, error) {
+	var out [3]bool
+	_, f, err := gen.ParseFile(filepath.Join(repo, "internal/j5s/j5convert/conversion.go"))
+	if err != nil {
+		return out, err
+	}
+	for _, d := range f.Decls {
+		fd, ok := d.(*ast.FuncDecl)
+		if !ok || fd.Name.Name != "addError" || fd.Body == nil {
+			continue
+		}
+		ast.Inspect(fd, func(n ast.Node) bool {
+			ifs, ok := n.(*ast.IfStmt)
+			if !ok {
+				return true
+			}
+			calls := false
+			ast.Inspect(ifs.Body, func(m ast.Node) bool {
+				if c, ok := m.(*ast.CallExpr); ok {
+					if se, ok := c.Fun.(*ast.SelectorExpr); ok && se.Sel.Name == "AddPosition" {
+						calls = true
+					}
+				}
+				return true
+			})
+			if calls {
+				out[0] = true
+				if be, ok := ifs.Cond.(*ast.BinaryExpr); ok && be.Op.String() == "!=" {
+					if x, ok := be.X.(*ast.Ident); ok && x.Name == "loc" {
+						if y, ok := be.Y.(*ast.Ident); ok && y.Name == "nil" {
+							out[1] = true
+						}
+					}
+				}
+			}
+			return true
+		})
+	}
+	_, g, err := gen.ParseFile(filepath.Join(repo, "internal/j5s/sourcewalk/sourcewalk.go"))
+	if err != nil {
+		return out, err
+	}
+	for _, d := range g.Decls {
+		fd, ok := d.(*ast.FuncDecl)
+		if !ok || fd.Name.Name != "GetPos" || fd.Body == nil {
+			continue
+		}
+		nret, good := 0, 0
+		ast.Inspect(fd, func(n ast.Node) bool {
+			if r, ok := n.(*ast.ReturnStmt); ok {
+				nret++
+				if len(r.Results) == 1 {
+					if u, ok := r.Results[0].(*ast.UnaryExpr); ok && u.Op.String() == "&" {
+						if _, ok := u.X.(*ast.CompositeLit); ok {
+							good++
+						}
+					}
+				}
+			}
+			return true
+		})
+		out[2] = nret == 1 && good == 1
+	}
+	return out, nil
+}
+
+// typeSwitchArms lists the case labels of the first type switch of buildField and buildProperty.
+func typeSwitchArms(repo string) ([][2]string, error) {
+	tp, err := loadTyped(repo, setExtDirs[0])
+	if err != nil {
+		return nil, err
+	}
+	var out [][2]string
+	for _, f := range tp.files {
+		for _, d := range f.Decls {
+			fd, ok := d.(*ast.FuncDecl)
+			if !ok || fd.Body == nil || (fd.Name.Name != "buildField" && fd.Name.Name != "buildProperty") {
+				continue
+			}
+			done := false
+			ast.Inspect(fd, func(n ast.Node) bool {
+				ts, ok := n.(*ast.TypeSwitchStmt)
+				if !ok || done {
+					return !done
+				}
+				done = true
+				for _, st := range ts.Body.List {
+					cc := st.(*ast.CaseClause)
+					if cc.List == nil {
+						out = append(out, [2]string{fd.Name.Name, "default"})
+					}
+					for _, e := range cc.List {
+						out = append(out, [2]string{fd.Name.Name, tp.typeString(e)})
+					}
+				}
+				return false
+			})
+		}
+	}
+	sort.SliceStable(out, func(i, j int) bool {
+		if out[i][0] != out[j][0] {
+			return out[i][0] < out[j][0]
+		}
+		return out[i][1] < out[j][1]
+	})
+	return out, nil
 }
